@@ -27,10 +27,29 @@ Complaints(r) ==
      \cup (IF r.src \in {"T", "F"} /\ r.src # B3(s) THEN {"conditional-type-branch-differs-from-inclusion"} ELSE {})
 
 
+\* Known deviation "subsumedUnionMember".  The engine reads an object / tuple atom exactly where it occurs positively and
+\* structurally where it occurs negatively.  In the decision diagram of a union A1 | A2 the later-numbered member occurs as
+\* (not A1) and A2, so a member whose exact values are structural values of another member of the same kind is lost:
+\* (A1 | A2) <= B is decided as A1 <= B.  Which member is numbered first follows the order in which named types were converted.
+\* Explained: every member of A that refutes the inclusion is such a losable member.
+Kind(b) == IF b.t = "obj" THEN "mapping" ELSE IF b.t \in {"arr", "tuple"} THEN "list" ELSE "other"
+Losable(A) == LET bs == Branches(A, Env) IN
+              {b \in bs : Kind(b) # "other" /\ \E c \in bs : c # b /\ Kind(c) = Kind(b) /\ Sub(b, c, Env)}
+ExplainedBySubsumption(A, B) == LET refuting == {b \in Branches(A, Env) : ~Sub(b, B, Env)} IN
+                                refuting # {} /\ refuting \subseteq Losable(A)
+ClassifySub(kind, r) ==
+  LET A == Frag[r.ia]  B == Frag[r.ib]  s == Sub(A, B, Env)  s2 == Sub(B, A, Env) IN
+  IF "subsumedUnionMember" \notin Open THEN "NEW"
+  ELSE IF kind = "assignability-differs-from-inclusion" /\ r.sub = "T" /\ ~s /\ ExplainedBySubsumption(A, B) THEN "subsumedUnionMember"
+  ELSE IF kind = "conditional-type-branch-differs-from-inclusion" /\ r.src = "T" /\ ~s /\ ExplainedBySubsumption(A, B) THEN "subsumedUnionMember"
+  ELSE IF kind = "equivalence-differs-from-mutual-inclusion" /\ r.same = "T"
+          /\ (s \/ ExplainedBySubsumption(A, B)) /\ (s2 \/ ExplainedBySubsumption(B, A)) THEN "subsumedUnionMember"
+  ELSE "NEW"
+
 Observe ==
   /\ l <= Len(Rec)
   /\ ia' = Rec[l].ia /\ ib' = Rec[l].ib
-  /\ bad' = {[kind |-> k, exp |-> B3(Sub(Frag[Rec[l].ia], Frag[Rec[l].ib], Env))] : k \in Complaints(Rec[l])}
+  /\ bad' = {[kind |-> k, exp |-> B3(Sub(Frag[Rec[l].ia], Frag[Rec[l].ib], Env)), class |-> ClassifySub(k, Rec[l])] : k \in Complaints(Rec[l])}
   /\ l' = l + 1
 TraceInit == l = 1 /\ bad = {} /\ ia = 1 /\ ib = 1
 TraceSpec == TraceInit /\ [][Observe]_tvars
@@ -38,5 +57,5 @@ Accepted ==
   LET consumed == TLCGet("stats").diameter - 1 IN
   /\ PrintT(<<"CONSUMED", ToJson([n |-> consumed, of |-> Len(Rec)])>>)
   /\ consumed = Len(Rec)
-Report == \A b \in bad : PrintT(<<"JUDGED", ToJson([line |-> l - 1, kind |-> b.kind, exp |-> b.exp])>>)
+Report == \A b \in bad : PrintT(<<"JUDGED", ToJson([line |-> l - 1, kind |-> b.kind, exp |-> b.exp, class |-> b.class])>>)
 =============================================================================
